@@ -27,7 +27,7 @@ ASSUMPTIONS = [
     "rows out of date order and duplicated dates are not equivalent tables and are not generated",
     "extra rows lie strictly outside the simulation window",
 ]
-BUDGET = {"quick": 200, "thorough": 3000}
+BUDGET = {"quick": 300, "thorough": 3000}
 EXHAUSTIVE_NOTE = "sub-space (a), the 120 column permutations, is enumerated completely on one configuration in every run"
 PROFILE = gen.profile(seasons=(1, 2), max_days=500, p_gdd=0.4, p_custom_soil=0.1, p_dz=0.05, p_gw=0.1, p_fm=0.2, p_ffm=0.1, pad=(0, 25))
 
